@@ -1193,6 +1193,29 @@ func (w *replWorld) step(ws []string) (out string) {
 			return r
 		}
 		return s
+	case "txrefused": // txrefused <key> <size>: a transaction the primary's log refuses (one value beyond a log record): nothing is written
+		sz, _ := strconv.Atoi(ws[2])
+		err, blocked, _ := replGuarded(2*replWatchdog, func() error {
+			tx, err := w.prim.eng.BeginTransaction(false)
+			if err != nil {
+				return err
+			}
+			tx.Put([]byte("refused-small"), []byte("x"))
+			tx.Put(unhx(ws[1]), make([]byte, sz))
+			if cerr := tx.Commit(); cerr == nil {
+				return errors.New("oversized-commit-accepted")
+			}
+			tx.Rollback()
+			return nil
+		})
+		if blocked {
+			w.cause = replDiagnoseBlock()
+			return fmt.Sprintf("blocked op=%s cause=%s", ws[0], w.cause)
+		}
+		if err != nil {
+			return "err " + errTok(err)
+		}
+		return "ok"
 	case "put", "putbig", "del", "tx", "burst", "burstdel", "flush":
 		err, blocked, _ := replGuarded(2*replWatchdog, func() error { return w.write(ws) })
 		if blocked {
@@ -1684,7 +1707,7 @@ func replGenTx(g *gen, w *bufio.Writer, m int) {
 	fmt.Fprintln(w, strings.Join(parts, " "))
 }
 
-var replClassesQuick = []string{"after", "before", "during", "restart", "outage", "stopstorm", "stopapply", "preflush", "two", "tx1", "prod", "txmulti", "rotate", "onelate", "cleancatchup", "cleanpush", "sustained", "txcut", "bigvalues", "applyfail", "bigvalues"}
+var replClassesQuick = []string{"after", "before", "during", "restart", "outage", "refusedtx", "flaps", "stopstorm", "stopapply", "preflush", "two", "tx1", "prod", "txmulti", "rotate", "onelate", "cleancatchup", "cleanpush", "sustained", "txcut", "bigvalues", "applyfail", "bigvalues"}
 var replClassesThorough = append(append([]string{}, replClassesQuick...), "after", "before", "during", "restart", "txmulti", "rotatemem", "txsplit", "mixed")
 
 func genRepl(g *gen, n int, tier string, w *bufio.Writer) {
@@ -1832,6 +1855,28 @@ func genReplCase(g *gen, w *bufio.Writer, class string, big bool) {
 		fmt.Fprintln(w, "await a")
 		fmt.Fprintf(w, "outage %d\n", g.pick(50, 300))
 		fmt.Fprintln(w, "await a")
+	case "refusedtx": // the primary refuses a commit (a value beyond one log record) in the middle of the history: later writes replicate
+		hdr("any", "")
+		if g.chance(1, 2) {
+			fmt.Fprintln(w, "join a")
+		}
+		replGenMixedOps(g, w, 5+g.intn(20), true)
+		fmt.Fprintf(w, "txrefused %s %d\n", hx([]byte("refused-big")), g.pick(32768, 40000, 70000))
+		replGenMixedOps(g, w, 5+g.intn(20), true)
+		fmt.Fprintln(w, "join b")
+		fmt.Fprintln(w, "await b")
+		replGenMixedOps(g, w, 3+g.intn(5), false)
+		fmt.Fprintln(w, "await b")
+	case "flaps": // the link drops several times, each time long enough for a few failed dials; the replica reconnects every time
+		hdr("any", "proxy=1")
+		fmt.Fprintln(w, "join a")
+		replGenMixedOps(g, w, 10+g.intn(20), true)
+		fmt.Fprintln(w, "await a")
+		for k := 0; k < 3; k++ {
+			fmt.Fprintf(w, "outage %d\n", g.pick(1500, 2200))
+			replGenMixedOps(g, w, 3+g.intn(8), true)
+			fmt.Fprintln(w, "await a")
+		}
 	case "stopapply": // the replica is stopped exactly while its loop is inside the apply handler (a slow apply), then started again
 		hdr("converge", "")
 		fmt.Fprintln(w, "join a")
